@@ -267,6 +267,14 @@ def r3_mode_seed_reaches_pipeline(ctx):
     ctx.check(derived, b.qual + "#island-seeds", "island seeds drawn from default_rng(self.pygmo_seed) (local generator)" if derived else "island seeds do not derive from the optimiser seed", where=b, node=sts[-1] if sts else b.node)
     isl = [cl for fn in [b] + list(b.nested.values()) for cl in calls_in(fn.node) if call_name(cl).endswith("pg.island") or call_name(cl) == "island"]
     ok = bool(isl) and all(kw(cl, "seed") is not None and dotted(kw(cl, "seed")) == "seed" for cl in isl)
+    if not isl:
+        # the creator is a method handed to map(): every map over the seeds names a function that builds
+        # pg.island(..., seed=<its parameter>)
+        from props.C07 import _creates_island_from_seed
+
+        maps = [cl for cl in calls_in(b.node) if call_name(cl).split(".")[-1] == "map" and len(cl.args) == 2]
+        ok = bool(maps) and all(_creates_island_from_seed(ctx, b, cl.args[0]) for cl in maps)
+        isl = maps
     ctx.check(ok, b.qual + "#island-seed-arg", "each island receives its seed" if ok else "islands are created without their seed", where=b, node=isl[0] if isl else b.node)
 
 
